@@ -225,6 +225,10 @@ func conformance(r *ev.Run, depth int) {
 		if !r.Mine(ti) {
 			return
 		}
+		if r.OutOfTime() {
+			r.Capped("time budget reached during the conformance traces")
+			return
+		}
 		tr := traces[ti]
 		// model
 		c, err := fx.NewCluster(r, 1, 1)
